@@ -11,6 +11,7 @@ import (
 	"time"
 
 	"github.com/ipfs/go-cid"
+	"github.com/ipld/go-ipld-prime"
 	"github.com/ipld/go-ipld-prime/datamodel"
 	"github.com/libp2p/go-libp2p/core/peer"
 	"github.com/libp2p/go-libp2p/core/protocol"
@@ -233,6 +234,76 @@ func (rr *recReceiver) ReceiveError(err error) {
 	rr.inner.ReceiveError(err)
 }
 
+// ---------------------------------------------------------------- recording transport decorator
+
+type TpCall struct {
+	Step, Done int
+	Kind       string // open, close, cleanup, pause, resume, shutdown
+	ChID       datatransfer.ChannelID
+	Err        error
+	Life       int
+	Restart    bool
+}
+
+// recTransport forwards every call to the real graphsync transport and logs it. (Per-channel stores are
+// configured by harness-made TransportOptions that call the real transport directly, because the library's
+// gst.UseStore option type-asserts the transport it is handed.)
+type recTransport struct {
+	inner *gst.Transport
+	n     *Node
+	life  int
+}
+
+func (t *recTransport) log(kind string, chid datatransfer.ChannelID) int {
+	t.n.TpCalls = append(t.n.TpCalls, TpCall{Step: t.n.w.S.Steps, Kind: kind, ChID: chid, Life: t.life})
+	return len(t.n.TpCalls) - 1
+}
+func (t *recTransport) done(i int, err error) error {
+	t.n.TpCalls[i].Done = t.n.w.S.Steps
+	t.n.TpCalls[i].Err = err
+	return err
+}
+func (t *recTransport) OpenChannel(ctx context.Context, dataSender peer.ID, channelID datatransfer.ChannelID, root ipld.Link, stor datamodel.Node, channel datatransfer.ChannelState, msg datatransfer.Message) error {
+	i := t.log("open", channelID)
+	t.n.TpCalls[i].Restart = channel != nil
+	return t.done(i, t.inner.OpenChannel(ctx, dataSender, channelID, root, stor, channel, msg))
+}
+func (t *recTransport) CloseChannel(ctx context.Context, chid datatransfer.ChannelID) error {
+	i := t.log("close", chid)
+	return t.done(i, t.inner.CloseChannel(ctx, chid))
+}
+func (t *recTransport) SetEventHandler(events datatransfer.EventsHandler) error {
+	return t.inner.SetEventHandler(events)
+}
+func (t *recTransport) CleanupChannel(chid datatransfer.ChannelID) {
+	i := t.log("cleanup", chid)
+	t.inner.CleanupChannel(chid)
+	_ = t.done(i, nil)
+}
+func (t *recTransport) Shutdown(ctx context.Context) error {
+	i := t.log("shutdown", datatransfer.ChannelID{})
+	return t.done(i, t.inner.Shutdown(ctx))
+}
+func (t *recTransport) PauseChannel(ctx context.Context, chid datatransfer.ChannelID) error {
+	i := t.log("pause", chid)
+	return t.done(i, t.inner.PauseChannel(ctx, chid))
+}
+func (t *recTransport) ResumeChannel(ctx context.Context, msg datatransfer.Message, chid datatransfer.ChannelID) error {
+	i := t.log("resume", chid)
+	return t.done(i, t.inner.ResumeChannel(ctx, msg, chid))
+}
+
+// UseStoreOption is the harness' equivalent of gst.UseStore for a manager built on the recording decorator.
+func (n *Node) UseStoreOption(lsys ipld.LinkSystem) datatransfer.TransportOption {
+	return func(chid datatransfer.ChannelID, _ datatransfer.Transport) error {
+		tp := n.Tp
+		if err := tp.UseStore(chid, lsys); err != nil {
+			n.w.Logf("%s UseStore(%d): %v", n.Name, chid.ID, err)
+		}
+		return nil
+	}
+}
+
 // ---------------------------------------------------------------- validator (SimApp)
 
 type ValCall struct {
@@ -321,6 +392,7 @@ type Node struct {
 	t0         time.Time
 	Up         bool
 	ChStores   map[datatransfer.ChannelID]*Store
+	TpCalls      []TpCall
 	gsHist       []*GS
 	AllGSCalls   []GSCall
 	CrashedLives map[int]bool // lives that began after a crash (not a clean stop)
@@ -373,7 +445,7 @@ func (n *Node) Start() bool {
 	if n.Cfg.Monitor != nil {
 		opts = append(opts, dtimpl.ChannelRestartConfig(*n.Cfg.Monitor))
 	}
-	m, err := dtimpl.NewDataTransfer(n.Disk, n.Net, n.Tp, opts...)
+	m, err := dtimpl.NewDataTransfer(n.Disk, n.Net, &recTransport{inner: n.Tp, n: n, life: n.life}, opts...)
 	if err != nil {
 		n.r.HarnessErr = "NewDataTransfer: " + err.Error()
 		return false
